@@ -22,7 +22,7 @@
    outcome of every point against go/types (Info.Instances of a one-line call) - the fragment's
    reference semantics *is* go/types - and replays it through the real CodeBuilder. *)
 EXTENDS Integers, Sequences, FiniteSets, TLC, Json
-CONSTANTS SigIds, Forms, ExplNames, MaxExpl, MaxVariadic, FvSigs, TypeInst
+CONSTANTS SigIds, Forms, ExplNames, MaxExpl, MaxVariadic, FvSigs, TypeInst, PvSigs
 
 (* ---- types ---- *)
 B(n) == [k |-> "b", n |-> n]
@@ -48,6 +48,7 @@ HasTP(t) == CASE t.k = "tp" -> TRUE
               [] OTHER -> FALSE
 
 ExplT(n) == CASE n = "int" -> TInt [] n = "float64" -> TF64 [] n = "string" -> TStr [] n = "MyInt" -> MyInt [] n = "MySl" -> MySl [] n = "[]int" -> SlT(TInt)
+             [] n = "[]string" -> SlT(TStr) [] n = "[]float64" -> SlT(TF64)
 ExplTypes == {ExplT(n) : n \in ExplNames}
 
 (* ---- argument forms ---- *)
@@ -77,6 +78,7 @@ Sig(i) ==
     [] i = 15 -> Sg(<<"any", "any">>, <<TP(2)>>, TRUE)                                    \* Collect[R, T any](xs ...T)   also reachable as XGox_ function: Collect(R, xs...)
     [] i = 16 -> Sg(<<"any", "any">>, <<TP(2)>>, FALSE)                                   \* Cast[R, T any](x T)
     [] i = 17 -> Sg(<<"any">>, <<>>, FALSE)                                               \* Mk[R any]()
+    [] i = 18 -> Sg(<<"any", "any">>, <<TP(2), TP(1)>>, TRUE)                             \* Gather[T, U any](u U, xs ...T)   T only explicitly when xs is empty; also XGox_: Gather(T, u, xs...)
 NTP(s) == Len(s.tps)
 
 (* ---- unification ---- *)
@@ -169,6 +171,16 @@ InferE(s, expl, args, ell) ==
        ELSE bd3
 Infer(s, expl, args) == InferE(s, expl, args, FALSE)
 
+(* ---- a generic function with an explicit prefix of type arguments used as a plain value: v := F[X] ---- *)
+\* no function arguments and no target type: the remaining type arguments can only come from core types (S ~[]E gives E);
+\* every type argument, also an inferred one, must satisfy its constraint
+InferPV(s, expl) ==
+  LET bd0 == [i \in 1..NTP(s) |-> IF i <= Len(expl) THEN expl[i] ELSE NoT]
+      bd2 == CoreStep(bd0, s, Len(expl)) IN
+  IF Failed(bd2) \/ ~AllBound(bd2, s) THEN Fail
+  ELSE IF \E i \in 1..NTP(s) : ~Satisfies(bd2, s, i) THEN Fail
+  ELSE bd2
+
 (* ---- a generic function value (with an explicit prefix) used where a function type is expected ---- *)
 \* the remaining type arguments come from unifying the function's parameter and result types with the target's (exactly)
 FSg(tps, ps, r) == [tps |-> tps, ps |-> ps, r |-> r]
@@ -216,10 +228,13 @@ CallPoints == UNION {{[kind |-> "call", sig |-> i, expl |-> e, args |-> a] :
 FvPoints == IF FvSigs = {} THEN {} ELSE
             UNION {{[kind |-> "fv", sig |-> i, expl |-> e, target |-> t] : e \in SeqsUpTo(ExplTypes, Len(FSig(i).tps)), t \in Targets} : i \in FvSigs}
 TiPoints == IF ~TypeInst THEN {} ELSE {[kind |-> "ti", fam |-> f, targs |-> a] : f \in TFams, a \in SeqsUpTo(InstTypes, 2) \ {<<>>}}      \* G[] is not syntax
-Init == /\ pt \in CallPoints \cup FvPoints \cup TiPoints
+PvPoints == IF PvSigs = {} THEN {} ELSE
+            UNION {{[kind |-> "pv", sig |-> i, expl |-> e] : e \in SeqsUpTo(ExplTypes, NTP(Sig(i))) \ {<<>>}} : i \in PvSigs}
+Init == /\ pt \in CallPoints \cup FvPoints \cup TiPoints \cup PvPoints
         /\ ell \in (IF pt.kind = "call" /\ EllOK(Sig(pt.sig), pt.args) THEN BOOLEAN ELSE {FALSE})
 Next == UNCHANGED <<pt, ell>>
-Res == IF pt.kind = "ti" THEN (IF TFirst(pt.fam, pt.targs) = 0 THEN Fail ELSE pt.targs) ELSE IF pt.kind = "fv" THEN InferFV(FSig(pt.sig), pt.expl, pt.target) ELSE InferE(Sig(pt.sig), pt.expl, pt.args, ell)
+Res == IF pt.kind = "ti" THEN (IF TFirst(pt.fam, pt.targs) = 0 THEN Fail ELSE pt.targs) ELSE IF pt.kind = "fv" THEN InferFV(FSig(pt.sig), pt.expl, pt.target)
+       ELSE IF pt.kind = "pv" THEN InferPV(Sig(pt.sig), pt.expl) ELSE InferE(Sig(pt.sig), pt.expl, pt.args, ell)
 NTPof == IF pt.kind = "ti" THEN Len(pt.targs) ELSE IF pt.kind = "fv" THEN Len(FSig(pt.sig).tps) ELSE NTP(Sig(pt.sig))
 \* the explicit prefix is respected; the result satisfies the constraints; substitution is idempotent (no type parameter left)
 ExplicitRespected == (pt.kind # "ti" /\ ~Failed(Res)) => \A i \in 1..Len(pt.expl) : Res[i] = pt.expl[i]
@@ -237,7 +252,7 @@ TypeStr(t) == CASE t.k = "b" -> t.n [] t.k = "n" -> "ov." \o t.n [] t.k = "sl" -
 Emit == IF pt.kind = "ti"
         THEN PrintT(ToJson([kind |-> "ti", fam |-> pt.fam, expl |-> [j \in 1..Len(pt.targs) |-> TypeStr(pt.targs[j])], first |-> TFirst(pt.fam, pt.targs), ok |-> TFirst(pt.fam, pt.targs) # 0]))
         ELSE PrintT(ToJson([kind |-> pt.kind, sig |-> pt.sig, expl |-> [j \in 1..Len(pt.expl) |-> TypeStr(pt.expl[j])],
-                       args |-> IF pt.kind = "fv" THEN <<>> ELSE pt.args, ell |-> ell,
+                       args |-> IF pt.kind \in {"fv", "pv"} THEN <<>> ELSE pt.args, ell |-> ell,
                        target |-> IF pt.kind = "fv" THEN TypeStr(pt.target) ELSE "",
                        ok |-> ~Failed(Res), targs |-> IF Failed(Res) THEN <<>> ELSE [i \in 1..NTPof |-> TypeStr(Res[i])]]))
 =============================================================================
